@@ -4,6 +4,7 @@ package props
 
 import (
 	"encoding/json"
+	"strings"
 	"testing"
 
 	"github.com/go-openapi/spec"
@@ -58,6 +59,16 @@ func continueWalk(f *vstat.Failure, gin, gout *model.Graph, root string, el mode
 					known := ""
 					if tp.Doc == root && throughHolder(gin, tp) {
 						known = "K6"
+					}
+					// second shape of K6: the unresolvable $ref is fragment-only and sits in an imported document; left
+					// verbatim in the root being rewritten, it becomes resolvable there if the root happens to have a
+					// member at that pointer, and a later $ref to the rewritten element then follows it
+					if pin.Doc != root && strings.HasPrefix(r, "#") {
+						if n, err := gin.Get(model.Pos{Doc: root, Ptr: tp.Ptr}); err == nil {
+							if _, isObj := n.(map[string]any); isObj {
+								known = "K6"
+							}
+						}
 					}
 					f.AddKnown(known, "DANGLING-REF-NOT-KEPT", pout.Ptr, "unresolvable schema $ref %q (input %s) is not left in place at %s: output holds %s", r, pin, pout.Ptr, model.JS(nout))
 					return
